@@ -57,6 +57,12 @@ def execute(mod, case, log_on=False):
     {status: ok|violation|invalid|harness, stats, violation, sched}"""
     sched = Sched(seed=case.get("sched_seed", 0), tape=case.get("tape"), log_on=log_on)
     budget = float(getattr(mod, "CASE_TIMEOUT_S", 60.0))
+    try:
+        # the watchdog is the one wall-clock quantity in the harness: scale it with the machine's load so that a
+        # busy sandbox does not turn a slow case into a "hang"
+        budget *= max(1.0, os.getloadavg()[0] / float(os.cpu_count() or 1))
+    except OSError:
+        pass
     in_main = (mp.current_process() is not None) and \
         (__import__("threading").current_thread() is __import__("threading").main_thread())
     if in_main:
@@ -227,7 +233,13 @@ def chunk_worker(pid, tier, seed, lo, hi, deadline, repo):
                 case2 = copy.deepcopy(case)
                 case2["tape"] = list(res["sched"].tape)
                 res2 = execute(mod, case2)
-                if res2["status"] != "violation" or \
+                if sig[-1] == "hang" and res2["status"] == "ok" and execute(mod, case2)["status"] == "ok":
+                    # a wall-clock overrun that does not repeat (twice) is load, not a hang and not nondeterminism
+                    agg.viol_count -= 1
+                    agg.slow_cases = getattr(agg, "slow_cases", 0) + 1
+                    print("NOTE property=%s case idx %d exceeded the wall-clock budget once and finished normally twice "
+                          "afterwards (machine load); not counted" % (pid, idx), file=sys.stderr)
+                elif res2["status"] != "violation" or \
                         res2["violation"]["signature"] != res["violation"]["signature"]:
                     # the same case, same tape, same process gave another outcome: either my harness is not
                     # deterministic or the code under test consults something no seam owns (e.g. id()).
@@ -237,8 +249,11 @@ def chunk_worker(pid, tier, seed, lo, hi, deadline, repo):
                     case2["violation"] = res["violation"]
                     viols.append(case2)
         elif res["status"] == "invalid":
+            # my generator left the property's domain: the case is skipped (nothing is concluded from it); only a
+            # generator that does so for more than 0.5 % of the cases is reported as a harness error (at the end)
             agg.invalid += 1
-            harness.append("generator produced invalid case idx %d: %s" % (idx, res["detail"]))
+            print("NOTE property=%s generated case idx %d is outside the property's domain and was skipped: %s"
+                  % (pid, idx, res["detail"]), file=sys.stderr)
         else:
             harness.append("idx %d: %s" % (idx, res["detail"]))
         if len(harness) > 5:
@@ -388,6 +403,8 @@ def run_property(pid, tier, seed, jobs=None, budget_s=None, runs=None, out=sys.s
             except Exception:
                 harness.append("extra_phase: " + traceback.format_exc())
 
+        if agg.invalid > max(3, 0.005 * max(agg.cases, 1)):
+            harness.append("generator produced %d invalid cases out of %d" % (agg.invalid, agg.cases))
         # ---- report violations ------------------------------------------
         known = load_known()
         by_sig = {}
